@@ -12,7 +12,7 @@ if [ "${SKIP_TESTS:-0}" != 1 ]; then
 fi
 cd /verif
 for p in "$@"; do
-  out=$(./check "$p" --tier quick 2>/dev/null); rc=$?
+  out=$(timeout 900 ./check "$p" --tier quick 2>/dev/null); rc=$?
   nv=$(echo "$out" | grep -c "^VIOLATION")
   echo "check $p: rc=$rc violations=$nv $(echo "$out" | grep -m1 'signature:')"
 done
